@@ -59,11 +59,11 @@ MANIFEST = {
             "documents with per-field defects, anchors/aliases/merge keys, YAML-in-YAML wrappers and byte/line mutations (CR/CRLF, tabs, "
             "non-UTF-8, truncation, token lines, pint comments).",
     "note": "Coq 8.16.1 kernel+VM, no axioms; hand models validated by differential execution on every run; crash/hang/renderability and the "
-            "line ranges built by individual checks are testing under timeout, labelled partial; two open known findings: C02-lone-cr (yaml.v3 "
+            "line ranges built by individual checks are testing under timeout, labelled partial; one open known finding: C02-lone-cr (yaml.v3 "
             "counts a lone CR / NEL / LS / PS as a line break, pint does not: line numbers beyond the file - exactly the class where the "
-            "hypothesis docs_fit of theorem (4) fails on real input; the crashes it caused are fixed by f44c1ab and 5f804fb) and C02-alias-fanout "
-            "(relaxed mode walks the exponential tree unfolding of alias-doubling documents: a 29-line file does not finish in 60 s; the "
-            "termination theorem (3) holds, the running time is not bounded by it).",
+            "hypothesis docs_fit of theorem (4) fails on real input; the crashes it caused are fixed by f44c1ab and 5f804fb). Fixed upstream "
+            "after being found here: implicit null after EOF (5430596), JSON makeslice panic (5f804fb), alias fan-out hang (2108dfa, modelled: "
+            "documents unfolding to more than 10^6 nodes are refused in both modes).",
     "technique": "Coq theorems over Gallina parser/routing/position-lines/render models + forest, entry and Expand correspondence + "
                  "execution-based crash detector (in-process pipeline and real binary, four renderers)",
 }
